@@ -23,7 +23,8 @@ LEVEL_TEXT = ('For every initial state produced by the real reset functions (shi
               'an environment assembled like the shipped config of that family looks for a history reaching the rewarded goal '
               'without passing through a terminating state. Found = a genuine (possible) history; exhausted = proof of '
               'unwinnability for that layout, reported unless its mechanism is a listed known finding; budget hit = '
-              'inconclusive instance (counted).')
+              'inconclusive instance (counted).'
+              ' Also: uneven room splits (40 seeds each), long layouts, rivers of non-blocking terminating objects.')
 LEVEL_NOTE = ('Trusted: search.py; goal = agent on the exit (memory tasks: the exit whose colour is the beacons\'). Key-door search '
               'never drops a held key (sound for existence). Known findings F1/F2 are matched by mechanism (goal reachable once '
               'wrong-coloured exits are passable / once obstacles are removed), never by seed.')
